@@ -24,9 +24,37 @@ namespace C09
 inductive Err where
   | valueError
   | outside        -- parameters outside the modelled domain (never sent by the harness)
+  | typeError      -- a float where C code wants an index (`itertools.tee(src, 2.0)`)
 deriving Repr, DecidableEq
 
 variable {α : Type} {β : Type} {κ : Type}
+
+/-! ## numeric arguments: `int(value)` and `_validate_positive_int` -/
+
+/-- a numeric argument as a caller may pass it: an `int`, a `float` given in halves
+    (`halves 5` = 2.5, `halves 4` = 2.0, `halves (-1)` = -0.5), or a `bool` -/
+inductive Param where
+  | int (i : Int)
+  | halves (h : Int)
+  | bool (b : Bool)
+deriving Repr, DecidableEq
+
+/-- `int(value)`: a float is truncated toward zero, `True` / `False` are 1 / 0 -/
+def Param.toInt : Param → Int
+  | .int i => i
+  | .halves h => Int.tdiv h 2
+  | .bool b => if b then 1 else 0
+
+/-- what C code that wants an index (`islice` stop, `tee` n) sees: ints and bools pass, floats do not -/
+def Param.index? : Param → Option Int
+  | .int i => some i
+  | .halves _ => none
+  | .bool b => some (if b then 1 else 0)
+
+/-- `_validate_positive_int(value, name, strictly_positive)`:
+    `value = int(value); if value < 0 or (strictly_positive and value == 0): raise ValueError` -/
+def validatePositiveInt (p : Param) (strict : Bool) : Except Err Int :=
+  if p.toInt < 0 ∨ (strict = true ∧ p.toInt = 0) then .error .valueError else .ok p.toInt
 
 /-! ## chunked / chunked_iter -/
 
@@ -58,6 +86,27 @@ def chunked (size : Int) (count : Option Int) (fill : Option α) (src : List α)
     if c < 0 then .error .valueError
     else if c = 0 then .ok []
     else (chunkedIter size fill src).map (fun l => l.take c.toNat)
+
+/-- `chunked_iter` as called: `size` is whatever the caller passed; it goes through
+    `_validate_positive_int` (so `2.0`, `2.5` and `True` are accepted sizes) -/
+def chunkedIterP (size : Param) (fill : Option α) (src : List α) : Except Err (List (List α)) :=
+  match validatePositiveInt size true with
+  | .error e => .error e
+  | .ok s => .ok (chunkLoop s.toNat fill src.length src)
+
+/-- `chunked` as called: `count` goes straight to `itertools.islice`, which takes ints and bools
+    but rejects a float at once (ValueError), before the generator is ever started -/
+def chunkedP (size : Param) (count : Option Param) (fill : Option α) (src : List α) :
+    Except Err (List (List α)) :=
+  match count with
+  | none => chunkedIterP size fill src
+  | some cp =>
+    match cp.index? with
+    | none => .error .valueError
+    | some c =>
+      if c < 0 then .error .valueError
+      else if c = 0 then .ok []
+      else (chunkedIterP size fill src).map (fun l => l.take c.toNat)
 
 /-! ## windowed / windowed_iter / pairwise -/
 
@@ -106,6 +155,13 @@ def windowed (size : Int) (fill : Option α) (src : List α) : Except Err (List 
 def pairwise (fill : Option α) (src : List α) : Except Err (List (List α)) :=
   windowed 2 fill src
 
+/-- `windowed` as called: `size` goes straight to `itertools.tee`, which takes ints and bools and
+    raises TypeError for a float -/
+def windowedP (size : Param) (fill : Option α) (src : List α) : Except Err (List (List α)) :=
+  match size.index? with
+  | none => .error .typeError
+  | some n => windowed n fill src
+
 /-! ## split / split_iter -/
 
 /-- `maxsplit is not None and split_count >= maxsplit` -/
@@ -140,6 +196,33 @@ def splitLoop (p : α → Bool) (grouping : Bool) (ms : Option Nat) :
 def split (p : α → Bool) (grouping : Bool) (maxsplit : Option Int) (src : List α) : List (List α) :=
   splitLoop p grouping (maxsplit.map Int.toNat) src [] 0 false
 
+/-- the `sep` argument of `split_iter`, by the branch of the dispatch it takes -/
+inductive Sep (α : Type) where
+  | none                     -- `sep=None`: grouping mode, `sep_func = lambda x: x == None`
+  | value (v : α)            -- a scalar that is not iterable: `x == sep`
+  | text (cs : List α)       -- a str / bytes separator: iterable but `is_scalar`, so again `x == sep`
+  | coll (vs : List α)       -- any other iterable: `x in frozenset(sep)`
+  | func (f : α → Bool)      -- a callable is used as it is
+
+def Sep.isNone : Sep α → Bool
+  | .none => true
+  | _ => false
+
+/-- `sep_func`.  `eqv` is Python's `==` on items, `isNone x` is `x == None`.  A one-character string is
+    `==` to that character item of a str input; a longer (or empty) string is `==` to no item. -/
+def sepFunc (eqv : α → α → Bool) (isNone : α → Bool) : Sep α → α → Bool
+  | .none => isNone
+  | .value v => fun x => eqv x v
+  | .text [c] => fun x => eqv x c
+  | .text _ => fun _ => false
+  | .coll vs => fun x => vs.any (fun v => eqv x v)
+  | .func f => f
+
+/-- `split(src, sep, maxsplit)` as called: separator dispatch and `maxsplit = int(maxsplit)` included -/
+def splitS (eqv : α → α → Bool) (isNone : α → Bool) (sep : Sep α) (maxsplit : Option Param)
+    (src : List α) : List (List α) :=
+  split (sepFunc eqv isNone sep) sep.isNone (maxsplit.map Param.toInt) src
+
 /-! ## lstrip / rstrip / strip -/
 
 /-- `lstrip_iter`: skip while the item equals `strip_value`, then yield everything -/
@@ -172,6 +255,18 @@ def uniqueLoop (f : α → κ) : List α → List κ → List α
     else x :: uniqueLoop f xs (f x :: seen)
 
 def unique (f : α → κ) (src : List α) : List α := uniqueLoop f src []
+
+/-- the `key` argument of `unique` / `redundant` / `bucketize`, by the branch of the dispatch it takes -/
+inductive KeyArg (α κ : Type) where
+  | none                          -- `key=None`: the item itself is the key
+  | func (f : α → κ)              -- a callable is used as it is
+  | attr (get? : α → Option κ)    -- an attribute name: `getattr(x, name, x)` (`get? x = none`: no such attribute)
+
+/-- `key_func`; `self x` is the item `x` seen as a key (its `==` class) -/
+def keyFunc (self : α → κ) : KeyArg α κ → α → κ
+  | .none => self
+  | .func f => f
+  | .attr g => fun x => (g x).getD (self x)
 
 /-! ## association lists (insertion-ordered dicts) -/
 
@@ -266,6 +361,16 @@ def chunkRanges (size cs off ov : Int) (align : Bool) : Except Err (List (Nat ×
   if size < 0 ∨ cs ≤ 0 ∨ off < 0 ∨ ov < 0 then .error .valueError
   else if cs ≤ ov then .error .outside
   else .ok (chunkRangesNat size.toNat cs.toNat off.toNat ov.toNat align)
+
+/-- `chunk_ranges` as called: every numeric argument goes through `_validate_positive_int`
+    (`chunk_size` strictly positive, the others non-negative) -/
+def chunkRangesP (size cs off ov : Param) (align : Bool) : Except Err (List (Nat × Nat)) :=
+  match validatePositiveInt size false, validatePositiveInt cs true,
+        validatePositiveInt off false, validatePositiveInt ov false with
+  | .ok s, .ok c, .ok o, .ok v =>
+    if c ≤ v then .error .outside
+    else .ok (chunkRangesNat s.toNat c.toNat o.toNat v.toNat align)
+  | _, _, _, _ => .error .valueError
 
 /-! ## specifications: `str.split` / `str.strip` on lists of items -/
 
